@@ -80,9 +80,12 @@ def t_align(ctx, f, spec, tag=""):
         row = spec["by_variant"].get(v)
         where = "%s:%d" % (body.file, body.span[0])
         if v == "Maybe":
-            # GVariant-only type: must not have a D-Bus alignment
-            ok = val is None or val[0] == "unreachable" or (val[0] != "k")
-            ctx.ob("T-ALIGN", tag + "alignment_dbus:Maybe", ok, "Maybe has no D-Bus alignment (arm diverges)", where)
+            # GVariant-only type. D-Bus has no maybe; its only D-Bus encoding is as an array (option-as-array),
+            # so the arm must either not produce a value or produce the array alignment.
+            arr = spec["by_variant"].get("Array", {}).get("align")
+            ok = val is None or val[0] == "unreachable" or (val[0] != "k") or (val[0] == "k" and val[1] == arr)
+            ctx.ob("T-ALIGN", tag + "alignment_dbus:Maybe", ok,
+                   "Maybe has no D-Bus alignment of its own: the arm diverges or yields the array alignment (%s); got %s" % (arr, val[1] if val and val[0] == "k" else val), where)
             continue
         if v == "Unit":
             ctx.note("alignment_dbus: Unit (not a D-Bus type) -> %s, not judged" % (val[1] if val and val[0] == "k" else val,))
